@@ -107,6 +107,10 @@ pub const SA_RESTORER: libc::c_int = 0x0400_0000;
 pub fn install_foreign(sig: libc::c_int, kind: &str) -> bool {
     unsafe {
         let mut sa: libc::sigaction = std::mem::zeroed();
+        let (kind, extra) = match kind.split_once('+') {
+            Some((k, f)) => (k, libc::c_int::from_str_radix(f, 16).unwrap_or(0)),
+            None => (kind, 0),
+        };
         let parts: Vec<&str> = kind.split(':').collect();
         match parts.as_slice() {
             ["dfl"] => sa.sa_sigaction = libc::SIG_DFL,
@@ -124,6 +128,7 @@ pub fn install_foreign(sig: libc::c_int, kind: &str) -> bool {
             },
             _ => return false,
         }
+        sa.sa_flags |= extra;
         libc::sigaction(sig, &sa, std::ptr::null_mut()) == 0
     }
 }
